@@ -87,11 +87,31 @@ Theorem C17_fen_total : forall zk s,
 Proof. exact (fun zk s => conj (readFENix_total zk s) (readFENix_in_range zk s)). Qed.
 Print Assumptions C17_fen_total.
 
+(** The hypothesis holds on EVERY position that passes the acceptance test of the specification
+    ([Spec.accepted]: 64 squares, one king each, no pawn on the first/last rank, side not to move not in
+    check, castling rights and en-passant square consistent with the board), for the legal moves of the
+    FIDE specification: own piece on the source square, promotion only by pawns, pawn geometry. *)
+Theorem C17_legal_shape : forall p, accepted (abs p) = true -> legalShapeb p (legalOf p) = true.
+Proof. exact legal_shape_accepted. Qed.
+Print Assumptions C17_legal_shape.
+
+(** DESIGN.md's statement: accepted position, legal move (FIDE specification) => the short and the
+    long form parse back to the move; and no two legal moves share a short form. *)
+Theorem C17_roundtrip_accepted : forall p, accepted (abs p) = true ->
+  (forall m, legal_spec (abs p) m ->
+     stringToMoveP p (moveToStringP p m false) = m /\ stringToMoveP p (moveToStringP p m true) = m) /\
+  (forall a b, legal_spec (abs p) a -> legal_spec (abs p) b ->
+     moveToStringP p a false = moveToStringP p b false -> a = b).
+Proof. exact (fun p H => conj (roundtrips_accepted p H) (short_injective_accepted p H)). Qed.
+Print Assumptions C17_roundtrip_accepted.
+
 (** * Statements not proved *)
 
-(** every position the FEN reader accepts satisfies the hypothesis with the Spec's legal moves
-    (would turn [C17_position_roundtrips] into [WF p -> In m (legal p) -> ...] of DESIGN.md);
-    evaluated on every generated position by the check *)
-Definition C17_legal_shape_statement : Prop :=
-  forall s p, readFEN zk0 s = FenOk p -> legalShapeb p (legalOf p) = true.
+(** every position the FEN reader returns passes the acceptance test of the specification (the link
+    between [Fen.readFEN] and [Spec.accepted] belongs to the position / move generation models; it is
+    evaluated by the check on every generated position and recorded in the evidence) *)
+Definition C17_fen_accepted_statement : Prop :=
+  forall s p, readFEN zk0 s = FenOk p -> accepted (abs p) = true.
 
+(** NOT modelled, hence no statement here: PGN scanner / parser / game tree (gametree.cpp) and the UCI
+    commands other than `position`; write -> parse -> compare and crash-freedom are tested only. *)
